@@ -428,3 +428,20 @@ def jax_feed_flat(white=None):
         yield info
     finally:
         evi.random_like = orig
+
+
+def eval_cases_pid(C, prop, header, checks, shard):
+    """common.eval_cases with per-process file names (concurrent runs of the same check, e.g. a
+    seedtest next to a registered run, must not overwrite each other's cases files); the files of
+    this process are removed afterwards."""
+    import glob
+    name = "corr_p%d" % os.getpid()
+    try:
+        return C.eval_cases(prop, name, header, checks, shard=shard)
+    finally:
+        for f in glob.glob(os.path.join(C.run_dir(prop), "cases_%s_*" % name)) + \
+                glob.glob(os.path.join(C.run_dir(prop), ".cases_%s_*" % name)):
+            try:
+                os.remove(f)
+            except OSError:
+                pass
